@@ -251,7 +251,7 @@ impl Check for C17 {
                             let a = imp::surface(&rx2, inp, "<$0|$1|$2>");
                             let b = imp::surface(&rp2, inp, "<$0|$1|$2>");
                             out.inc("states");
-                            if a.any_crash() || b.any_crash() {
+                            if a.any_crash() && b.any_crash() {
                                 out.inc("inconclusive_crash");
                                 continue;
                             }
